@@ -23,21 +23,21 @@ import (
 )
 
 type iTask struct {
-	Name      string
-	Aliases   []string
-	Internal  bool
-	Silent    bool
-	Watch     bool
-	Method    string
-	Platforms bool
-	Run       string
-	IgnErr    bool
+	Name        string
+	Aliases     []string
+	Internal    bool
+	Silent      bool
+	Watch       bool
+	Method      string
+	Platforms   bool
+	Run         string
+	IgnErr      bool
 	Interactive bool
-	Label     string
-	Prefix    string
-	Dir       string
-	Deps      []string // local names or ":name" (root)
-	Calls     []string
+	Label       string
+	Prefix      string
+	Dir         string
+	Deps        []string // local names or ":name" (root)
+	Calls       []string
 }
 
 type iInc struct {
@@ -172,6 +172,8 @@ func genI(ch *vs.Choices, c09 bool, tier string) *iProg {
 			if !c09 && ch.Bool(1, 15) {
 				inc.Target = -1
 				inc.Optional = ch.Bool(1, 2)
+			} else if ch.Bool(1, 5) {
+				inc.Optional = true // optional forgives only the absence of this very file, nothing inside it
 			}
 			if ch.Bool(1, 3) {
 				inc.Dir = fmt.Sprintf("work/%s", inc.NS)
@@ -344,7 +346,7 @@ func (p *iProg) fileYAML(f *iFile) string {
 type iEntry struct {
 	File     *iFile
 	Task     *iTask
-	Path     []*iInc // outermost first
+	Path     []*iInc  // outermost first
 	IncFrom  []*iFile // including file of each path element
 	Name     string
 	Aliases  []string
@@ -352,9 +354,9 @@ type iEntry struct {
 }
 
 type iModel struct {
-	p      *iProg
-	err    string // expected error class ("" = load succeeds)
-	table  map[string]*iEntry
+	p     *iProg
+	err   string // expected error class ("" = load succeeds)
+	table map[string]*iEntry
 }
 
 func (m *iModel) names(f *iFile, stack []int) (map[string]*iEntry, []string) {
@@ -610,13 +612,13 @@ func runI(t *testing.T, ch *vs.Choices, prop, tier string, render bool) *vs.RunO
 		}
 	}
 	type loadRes struct {
-		err   error
-		dump  string
-		lines map[string][]string // callable name -> probe lines
-		runErr map[string]error
-		attrs map[string]*ast.Task
+		err         error
+		dump        string
+		lines       map[string][]string // callable name -> probe lines
+		runErr      map[string]error
+		attrs       map[string]*ast.Task
 		aliasTarget map[string]string
-		outcome vs.Outcome
+		outcome     vs.Outcome
 	}
 	var loads []*loadRes
 	var log []string
